@@ -382,13 +382,22 @@ func (st *c13State) spec(s string, lang syntax.LangVariant, known bool) {
 func (st *c13State) runShells() {
 	c := st.c
 	res := parallelMap(len(st.jobs), 8, func(i int) ShellResult {
-		return runShell(c, st.jobs[i].shell, "printf %s "+st.jobs[i].q)
+		var r ShellResult
+		for attempt := 0; attempt < 3; attempt++ {
+			r = runShell(c, st.jobs[i].shell, "printf %s "+st.jobs[i].q)
+			// Status -1 with Err set = the process could not be started/waited for (fork limits,
+			// WaitDelay under load): not an answer of the shell.
+			if !r.TimedOut && !(r.Status == -1 && r.Err != "") {
+				break
+			}
+		}
+		return r
 	})
 	for i, r := range res {
 		j := st.jobs[i]
 		c.Hist["shell="+j.shell]++
-		if r.TimedOut {
-			c.Hist["shell-timeout"]++
+		if r.TimedOut || (r.Status == -1 && r.Err != "") {
+			c.Hist["shell-no-answer"]++
 			continue
 		}
 		if r.Status != 0 || r.Stdout != j.s {
@@ -411,9 +420,12 @@ func c13Gen(r *Rand, maxLen int) (string, string) {
 	var alpha []string
 	kind := ""
 	switch k := r.Intn(100); {
-	case k < 22: // printable only: these succeed in POSIX too
+	case k < 20: // printable only: these succeed in POSIX too
 		kind = "printable"
 		alpha = append(append(append([]string{}, c13Meta...), c13Letters...), c13PrintMB...)
+	case k < 27:
+		kind = "quotes" // single quotes force the "…" shape
+		alpha = append(append([]string{}, c13Letters...), "'", "'", "'", "\"", "$", "`", "\\", "é", "世", " ", "!", "*")
 	case k < 30:
 		kind = "plain"
 		alpha = append(append([]string{}, c13Letters...), "}", "]", "!", "-", "%", "^", ",", ":", "@", "+", "/", ".", "é", "世")
